@@ -10,7 +10,7 @@ import (
 )
 
 func init() {
-	register(&Rule{ID: "C05.R4", Min: 10,
+	register(&Rule{ID: "C05.R4", Min: 9,
 		Text: "scratch discipline: a pointer returned by a helper that may alias its scratch argument (tableExp10, exp10, upscale) is never read after the scratch object has been overwritten, and the scratch object's previous content is never read after the helper call (a live value must not be lent as scratch)",
 		Run:  ruleScratchDiscipline})
 	register(&Rule{ID: "C06.R7", Min: 1,
